@@ -199,15 +199,15 @@ harness!(c07_timer_dedicated_t, 11, |s| { ecrts19_body(s, 1, SupKind::Dedicated,
 
 // polling-point callback whose own cost model is a two-frame Multiframe (the cheap frame may
 // come second): `least_wcet_in_interval` then depends on how many jobs the interval holds
-harness!(c07_pp_multiframe_q, 8, |s| {
+fn pp_multiframe_body(s: &mut Src, fmask: u8, inc_mask: u8, nint: usize, limit_max: u64) {
     use response_time_analysis::wcet::Multiframe;
     let sup = any_sup(s, SupKind::Periodic, 1);
-    let curve = SymCurve::any(s, 2, 3);
-    let f0 = s.from(1, 1);
-    let f1 = s.from(1, 1);
-    let int = any_src1(s, 2, 3, 1);
+    let curve = SymCurve::any(s, 2, inc_mask);
+    let f0 = s.from(1, fmask);
+    let f1 = s.from(1, fmask);
+    let int = any_src1(s, nint, 3, 1);
     let limit = s.from(1, 7);
-    assume(limit <= 6);
+    assume(limit <= limit_max);
     let mut v = Vec::with_capacity(4);
     v.push(Service::from(f0));
     v.push(Service::from(f1));
@@ -229,7 +229,9 @@ harness!(c07_pp_multiframe_q, 8, |s| {
     );
     assert!(ok_value(&got) == want);
     cover!(matches!(want, Some(r) if r >= 4) && f1 < f0, "Ok(R) with R >= 4, second frame cheaper");
-});
+}
+harness!(c07_pp_multiframe_q, 8, |s| { pp_multiframe_body(s, 1, 3, 2, 6); });
+harness!(c07_pp_multiframe_t, 11, |s| { pp_multiframe_body(s, 3, 7, 3, 8); });
 
 // the two forms of the specification's supply-bound function agree
 harness!(c07_spec_sbf_forms_agree, 20, |s| {
@@ -390,7 +392,7 @@ pub fn register(t: &mut Table) {
     reg!(t;
         c07_event_source_q, c07_timer_q, c07_pp_q, c07_chain_q,
         c07_event_source_t, c07_timer_t, c07_pp_t, c07_chain_t, c07_timer_dedicated_t,
-        c07_spec_sbf_forms_agree, c07_pp_multiframe_q,
+        c07_spec_sbf_forms_agree, c07_pp_multiframe_q, c07_pp_multiframe_t,
         c07_rr_single_q, c07_rr_chain_q, c07_rr_single_t, c07_rr_chain_t, c07_rr_single_dedicated_t,
         c07_bw_single_t, c07_bw_chain_t,
     );
